@@ -452,4 +452,25 @@ def run (r : DateRules) (lemma : Option Val) (calls : List Call) : Out × Nat :=
   let t := calls.foldl DT.call (DT.make lemma)
   (t.realize r, t.warnings)
 
+/-! ## option histories on one `DT` object with realizations in between
+
+`Terminal.real()` recomputes `self.realization = self.dateFormat(self.date, self.getProp("dOpt"))` at every call:
+nothing of an earlier realization survives.  The language of a `DT` is that of its class (`TerminalEn` / `TerminalFr`,
+chosen at construction from the `lang` argument or the then-current language): the rules used are
+`getRules(self.lang())`, whatever language is current when it is realized. -/
+
+inductive Step where
+  | call (c : Call)
+  /-- `d.realize()`, or the realization of a sentence that contains `d` -/
+  | realize
+  deriving Repr
+
+/-- the outcomes of the `realize` steps, in order, and the final object -/
+def runHist (r : DateRules) (t : DT) : List Step → List Out × DT
+  | [] => ([], t)
+  | .call c :: rest => runHist r (t.call c) rest
+  | .realize :: rest =>
+    let (outs, t') := runHist r t rest
+    (t.realize r :: outs, t')
+
 end Pyrealb.Date
